@@ -1,7 +1,24 @@
 SPEC = {
     'id': 'C04',
-    'lean_modules': ['AITB.Props.C04'],
+    'lean_modules': ['AITB.Props.C04', 'AITB.Props.C04x'],
     'theorems': [
+        'AITB.Plan.consistentB_iff',
+        'AITB.Plan.consistent_exact_of_zeroBelow',
+        'AITB.Plan.plan_algebra',
+        'AITB.Plan.links_consistent_exec',
+        'AITB.Plan.links_consistent_exec_thresholded',
+        'AITB.Plan.bestAtPoint_spec',
+        'AITB.Plan.sampleAction_attains_envelope',
+        'AITB.Plan.follow_in_range',
+        'AITB.Plan.sampleActionIdO_defined',
+        'AITB.Plan.plan_le_lookahead',
+        'AITB.Plan.first_action_attains',
+        'AITB.Plan.exec_le_optimal',
+        'AITB.Plan.first_action_optimal',
+        'AITB.Plan.chainVF_consistent',
+        'AITB.Plan.qmdp_not_a_plan',
+        'AITB.Plan.qmdp_exec_counterexample',
+        'AITB.Plan.threshold_gap_counterexample',
     ],
     'harness': 'harness/c04.cpp',
     'harness_flags': ['-fno-access-control'],   # IncrementalPruning::crossSum is private
